@@ -229,6 +229,12 @@ def _first(x):
     return np.asarray(x)[0]
 
 
+def _primary(forms):
+    """rep[...] in the mode's primary syntax and rep.elements([...]) only"""
+    keep = [f for f in forms if f[0].startswith("rep[")][:1] + [f for f in forms if f[0].startswith("rep.elements(")][:1]
+    return keep or forms[:1]
+
+
 def norms_of(gens):
     return {l: mnorm(m) for l, m in gens.items()}
 
@@ -243,7 +249,7 @@ def words_check(rep, mode, table, what="image", all_forms=True, cmp=None, norms=
             cmp_w = cmp
         forms = word_forms(rep, mode, w)
         if not all_forms:
-            forms = forms[:1]
+            forms = _primary(forms)
         for fname, f in forms:
             try:
                 got = f()
